@@ -165,7 +165,7 @@ int main(int argc, char** argv) {
     R.rule = "one evaluation = one impedance object built by the real constructors / factory (or one impulse response); distinct = FNV of case + samples; trivial = factory call with nothing selected";
     R.sample_every = 500;
     const bool T = R.thorough();
-    std::vector<unsigned> cn = T ? std::vector<unsigned>{32, 64, 128} : std::vector<unsigned>{32, 64};
+    std::vector<unsigned> cn = T ? std::vector<unsigned>{32, 48, 64, 128} : std::vector<unsigned>{32, 64};
     if (R.warm) { for (unsigned n : cn) for (unsigned pad : {4u, 8u}) { Rig r(Cfg{n, 1, n * pad, 0, {0}}); r.f->wakePotential(); } return 0; }
     std::vector<size_t> ns = T ? std::vector<size_t>{2, 3, 4, 5, 8, 9, 16, 17, 32, 33, 64, 65, 128, 129, 256} : std::vector<size_t>{2, 3, 4, 5, 8, 9, 16, 17, 32, 33};
     part_models(ns);
